@@ -450,10 +450,20 @@ class Impl:
         m = {"twait": "setSequencingTriggerWait", "nrep": "setSequencingNumberOfRepetitions",
              "jump_input": "setSequencingEventInput", "jump_target": "setSequencingEventJumpTarget",
              "goto": "setSequencingGoto"}[f]
-        getattr(self.S[s], m)(pos, v)
+        getattr(self.S[s], m)(pos, self.int_value(v))
 
     def op_SSetSettings(self, s, pos, w, n, j, g):
-        self.S[s].setSequenceSettings(pos, w, n, j, g)
+        self.S[s].setSequenceSettings(pos, *(self.int_value(x) for x in (w, n, j, g)))
+
+    def op_HNumpyInts(self):
+        """Harness-only: from here on integer sequencing values reach the library as numpy integer scalars (what
+        np.arange or array indexing hand to a user's script); the model sees the same integers."""
+        self.np_ints = True
+
+    def int_value(self, v):
+        if getattr(self, "np_ints", False) and isinstance(v, int) and not isinstance(v, bool):
+            return np.int64(v)
+        return v
 
     def op_SSetName(self, s, n):
         self.S[s].name = n
@@ -539,7 +549,11 @@ class Impl:
 
     def op_OSDescr(self, s):
         d = self.S[s].description
-        json.dumps(d)
+        if getattr(self, "np_ints", False):
+            # numpy integers handed in by this harness are the caller's business when serialising: not part of C19
+            json.dumps(d, default=lambda o: int(o) if isinstance(o, np.integer) else (_ for _ in ()).throw(TypeError(repr(o))))
+        else:
+            json.dumps(d)
         return d
 
     def op_OSCheck(self, s):
@@ -759,7 +773,8 @@ def compare_plain_dict(a, b):
 
 
 # ops of the harness that the model sees as a short sequence of its own ops (one implementation call, one observation)
-MACROS = {"SSetRange": lambda s, c, a, o: [("SSetAmp", s, c, a), ("SSetOff", s, c, o)]}
+MACROS = {"SSetRange": lambda s, c, a, o: [("SSetAmp", s, c, a), ("SSetOff", s, c, o)],
+          "HNumpyInts": lambda: []}
 
 
 def expand_macros(prog):
@@ -778,7 +793,7 @@ def collapse_macros(results, groups):
     for start, n in groups:
         grp = results[start:start + n]
         errs = [r for r in grp if isinstance(r, Err)]
-        out.append(errs[0] if errs else grp[-1])
+        out.append(errs[0] if errs else (grp[-1] if grp else None))
     return out
 
 
